@@ -108,8 +108,9 @@ Section Instances.
     tr_seek strip_field_type tag keys v (pi s) = rmap pi (rev_seek keys (tag :: v) s).
   Proof.
     intros v s. unfold tr_seek, rev_seek, prepend_field_type. cbv zeta.
-    set (p := b_seek keys (tag :: v)).
-    match goal with |- context [if ?c then _ else _] => destruct c end; reflexivity.
+    destruct (b_seek keys (tag :: v)) as [i k]. cbn [fst snd]. unfold gb_equal.
+    destruct k as [[|c r]|]; cbn [gb_str]; try reflexivity.
+    destruct (str_eqb (tag :: v) (c :: r)); reflexivity.
   Qed.
 
   Lemma tr_ksim : ksim (tr_cursor strip_field_type tag keys) rev_leb (rev l) (R_t tag (R_rev keys)).
